@@ -175,6 +175,13 @@ def operand (P : Prim) (from_ T : VTy) (v : VVal) : Option VVal := convMV P from
 
 def operandR (P : Prim) (from_ T : VTy) (r : VR) : VR := convMVR P from_ T r
 
+/-- the type an operand of static type `t` is converted to for an operation carried out at `T`: `T` itself, except that
+the two operands of a scalar shift are promoted separately -/
+def operandTy (m : MBin) (t T : VTy) : VTy :=
+  match T with
+  | .sc _ => if Msl.isShift m then .sc (Msl.promote t.scalar) else T
+  | .vec _ _ => T
+
 /-- the binary operator at operation type `T` -/
 def binAt (P : Prim) (ta tb T : VTy) (m : MBin) (va vb : VVal) : Option VVal :=
   match T with
@@ -308,12 +315,10 @@ def eval (M : Msl.MWorld) (env : VAst.VEnv) (ρ : VStore) : VAExpr → Store →
         match binTy m ta tb with
         | none => none
         | some T =>
-          let Ta := match T with | .sc _ => (if Msl.isShift m then VTy.sc (Msl.promote ta.scalar) else T) | _ => T
-          let Tb := match T with | .sc _ => (if Msl.isShift m then VTy.sc (Msl.promote tb.scalar) else T) | _ => T
-          match operandR M.P ta Ta (eval M env ρ a σ) with
+          match operandR M.P ta (operandTy m ta T) (eval M env ρ a σ) with
           | none => none
           | some (va, σ1) =>
-            match operandR M.P tb Tb (eval M env ρ b σ1) with
+            match operandR M.P tb (operandTy m tb T) (eval M env ρ b σ1) with
             | none => none
             | some (vb, σ2) =>
               match binAt M.P ta tb T m va vb with
